@@ -242,7 +242,7 @@ func c18GenHist(w *mon.Worker, idx int) c18HistCase {
 	if w.Tier == "thorough" {
 		n = 160
 	}
-	if r.IntN(3) == 0 {
+	if r.IntN(2) == 0 {
 		// the first thing an eval-all decoder of this history sees is an input without a document
 		// (comment-only / empty file), the next thing an ordinary one
 		var noDoc, plain []int
